@@ -320,6 +320,12 @@ nextSegment:
 		// prefix chars in the stream (the parser extracts the raw data). In this
 		// case skip over them.
 		for ; segIndex < exprLen && expr[segIndex] != '_' && (expr[segIndex] < 'A' || expr[segIndex] > 'Z'); segIndex++ {
+			// A multi-name prefix (0x2f) is followed by the segment count.
+			// Counts 65-90 and 95 look like the first char of a name and
+			// must be skipped together with the prefix.
+			if expr[segIndex] == 0x2f {
+				segIndex++
+			}
 		}
 
 		if exprLen-segIndex < amlNameLen {
